@@ -1,0 +1,21 @@
+//go:build verif
+
+package icmp
+
+import (
+	"net"
+
+	"github.com/postalsys/muti-metroo/internal/identity"
+)
+
+// VerifRegisterSession registers a session without an ICMP socket (raw ICMP
+// sockets are not available in the verification sandbox); everything the frame
+// dispatcher looks at - GetSession, HandleICMPEcho, HandleICMPClose,
+// ActiveCount - behaves as for a session opened over the wire.
+func (h *Handler) VerifRegisterSession(streamID, requestID uint64, peer identity.AgentID) {
+	s := NewSession(streamID, requestID, peer, net.IPv4(127, 0, 0, 1))
+	h.mu.Lock()
+	h.sessions[streamID] = s
+	h.byRequestID[requestID] = s
+	h.mu.Unlock()
+}
